@@ -509,6 +509,124 @@ def _same_block_after(f: FuncInfo, guard: ast.If, node: ast.AST) -> bool:
     return False
 
 
+def strtok_rule(ctx: Ctx) -> None:
+    """RiscvParser._list_access_at_zero_and_remove_inline_labels stores `p[0]` of every line in self.text / self.data: a ParseResults
+    for an instruction or declaration with operands, a plain `str` for a label line, ecall / ebreak / nop.  Every later use of such an
+    entry as a ParseResults (an attribute or method that `str` does not have) must therefore be dominated by a test that the entry
+    is not a str -- otherwise some input text fails with a raw AttributeError instead of a parser error.
+
+    Syntax-directed walk with the set of facts established so far (guards.facts_of): if / elif / else, guard clauses that leave the
+    block (raise / continue / return / break), short-circuit `and` / `or` and conditional expressions."""
+    from ..guards import facts_of
+    m = ctx.model
+    r = ctx.rule("R15.strtok", "entries of self.text / self.data may be plain strings: ParseResults-only attributes are used only under a not-a-str test")
+    pc = m.cls("RiscvParser")
+    unwrap = m.method(pc, "_list_access_at_zero_and_remove_inline_labels")
+    uw = " ".join(ast.unparse(unwrap.node).split())
+    if "p[0]" not in uw:
+        raise AnalysisError("anchor vanished: `p[0]` unwrapping in _list_access_at_zero_and_remove_inline_labels")
+    STR_ATTRS = set(dir(str))
+    n_loops = n_uses = 0
+    reported: set = set()
+
+    def not_str(facts: set, name: str) -> bool:
+        return (f"isinstance({name}, str)", False) in facts or (f"str == type({name})", False) in facts or (f"str is type({name})", False) in facts \
+            or (f"type({name}) is str", False) in facts
+
+    def leaves(stmts: list) -> bool:
+        return bool(stmts) and isinstance(stmts[-1], (ast.Raise, ast.Return, ast.Continue, ast.Break))
+
+    def walk_fn(f, fn_node) -> None:
+        nonlocal n_loops, n_uses
+        s0 = f.params[0] if f.params else "self"
+
+        def expr(e: ast.AST, facts: set, name: str) -> None:
+            nonlocal n_uses
+            if isinstance(e, ast.BoolOp):
+                fs = set(facts)
+                for v in e.values:
+                    expr(v, fs, name)
+                    fs |= facts_of(v, isinstance(e.op, ast.And))
+                return
+            if isinstance(e, ast.IfExp):
+                expr(e.test, facts, name)
+                expr(e.body, facts | facts_of(e.test, True), name)
+                expr(e.orelse, facts | facts_of(e.test, False), name)
+                return
+            if isinstance(e, ast.Attribute) and isinstance(e.value, ast.Name) and e.value.id == name and isinstance(e.ctx, ast.Load) \
+                    and e.attr not in STR_ATTRS:
+                n_uses += 1
+                if not not_str(facts, name):
+                    if f.qname in reported:
+                        return  # the first unguarded use already fails for a str entry
+                    reported.add(f.qname)
+                r.check(not_str(facts, name), f"{short(f.qname)}|{name}.{e.attr}", f.loc(e),
+                        f"{short(f.qname)}: `{name}.{e.attr}` is evaluated without a preceding `isinstance({name}, str)` test, but `{name}` is a plain "
+                        "str for a label line, ecall / ebreak / nop (p[0] of the parsed line): such a line fails with AttributeError instead of a "
+                        "parser error carrying the line number")
+            for c in ast.iter_child_nodes(e):
+                if isinstance(c, (ast.expr, ast.keyword, ast.comprehension)):
+                    expr(c, facts, name)
+
+        def exprs_of(st: ast.stmt, facts: set, name: str) -> None:
+            for c in ast.iter_child_nodes(st):
+                if isinstance(c, (ast.expr, ast.keyword)):
+                    expr(c, facts, name)
+
+        def block(stmts: list, facts: set, name: str) -> set:
+            facts = set(facts)
+            for st in stmts:
+                if isinstance(st, ast.If):
+                    expr(st.test, facts, name)
+                    block(st.body, facts | facts_of(st.test, True), name)
+                    block(st.orelse, facts | facts_of(st.test, False), name)
+                    if leaves(st.body):
+                        facts |= facts_of(st.test, False)
+                    if leaves(st.orelse):
+                        facts |= facts_of(st.test, True)
+                elif isinstance(st, (ast.For, ast.While)):
+                    expr(st.iter if isinstance(st, ast.For) else st.test, facts, name)
+                    block(st.body, facts | (facts_of(st.test, True) if isinstance(st, ast.While) else set()), name)
+                    block(st.orelse, facts, name)
+                elif isinstance(st, ast.Try):
+                    block(st.body, facts, name)
+                    for h in st.handlers:
+                        block(h.body, facts, name)
+                    block(st.orelse, facts, name)
+                    block(st.finalbody, facts, name)
+                elif isinstance(st, ast.With):
+                    for it in st.items:
+                        expr(it.context_expr, facts, name)
+                    block(st.body, facts, name)
+                elif isinstance(st, ast.Assert):
+                    expr(st.test, facts, name)
+                    facts |= facts_of(st.test, True)
+                elif isinstance(st, (ast.FunctionDef, ast.AsyncFunctionDef, ast.ClassDef)):
+                    continue
+                else:
+                    exprs_of(st, facts, name)
+                if any(isinstance(n, ast.Name) and n.id == name and isinstance(n.ctx, ast.Store) for n in ast.walk(st)) and not isinstance(st, (ast.If, ast.For, ast.While, ast.Try, ast.With)):
+                    facts = set()
+            return facts
+
+        for loop in [n for n in walk_no_nested(fn_node) if isinstance(n, ast.For)]:
+            it = ast.unparse(loop.iter)
+            if it not in (f"{s0}.text", f"{s0}.data") or not (isinstance(loop.target, ast.Tuple) and len(loop.target.elts) == 3
+                                                              and isinstance(loop.target.elts[2], ast.Name)):
+                continue
+            n_loops += 1
+            block(loop.body, set(), loop.target.elts[2].id)
+
+    after = ("_write_data", "_process_pseudo_instructions", "_process_labels", "_write_instructions")
+    for name in after:
+        f = m.method(pc, name)
+        walk_fn(f, f.node)
+    r.inst("loops", {"loops": n_loops, "ParseResults-only uses": n_uses})
+    if n_loops < 4 or n_uses < 10:
+        ctx.floor_misses.append(f"R15.strtok: only {n_loops} loops over self.text/self.data and {n_uses} ParseResults-only uses found")
+
+
+
 def run(ctx: Ctx) -> None:
     m = ctx.model
     int_rule(ctx)
@@ -533,6 +651,7 @@ def run(ctx: Ctx) -> None:
                 f"{cn}._pattern_line does not end with StringEnd: trailing garbage would be accepted silently")
 
     key_rule(ctx)
+    strtok_rule(ctx)
     fault_rule(ctx, "R15.rt")
 
     r = ctx.rule("R15.gui", "front-end error classification")
